@@ -28,6 +28,8 @@ Theorem C05_side_multiword_min_len : 1 <= c_min_len.
 Proof. exact side_min_len. Qed.
 Theorem C05_side_year_prefixes : Forall (fun q => len q = 2) year_prefixes.
 Proof. exact side_year_prefixes. Qed.
+Theorem C05_side_year_prefixes_19_20 : year_prefixes = [[49; 57]; [50; 48]]%N.
+Proof. exact side_year_prefixes_19_20. Qed.
 Theorem C05_side_tlds_nonempty : Forall (fun t => 1 <= len t) tld_list.
 Proof. exact side_tlds_nonempty. Qed.
 
